@@ -64,6 +64,20 @@ pub fn run(ctx: &mut Ctx) {
         let rows: Vec<Val> = logical.iter().map(|r| { let k = rng.below(5); let c = rng.below(2) as u8; present(&mut rng, &fields, r, k, c) }).collect();
         let out = run_batch(&fields, &rows);
         results.push(("interleaved".into(), rows, out));
+        // a reused builder: the batch arrives in a random presentation AFTER the same builder has already delivered the batch in
+        // struct order (per-batch state of the name lookup must not leak: index, cache, cursor)
+        {
+            let first: Vec<Val> = logical.iter().map(|r| present(&mut rng, &fields, r, 0, 0)).collect();
+            let rows: Vec<Val> = logical.iter().map(|r| { let k = rng.below(5); let c = rng.below(2) as u8; present(&mut rng, &fields, r, k, c) }).collect();
+            let out = guarded(|| -> Result<Vec<Array>, String> {
+                let mut b = serde_arrow::ArrayBuilder::from_marrow(&fields).map_err(|e| e.to_string())?;
+                b.extend(&first).map_err(|e| format!("first batch: {}", e))?;
+                let _ = b.to_marrow().map_err(|e| e.to_string())?;
+                b.extend(&rows).map_err(|e| e.to_string())?;
+                b.to_marrow().map_err(|e| e.to_string())
+            });
+            results.push(("second_batch_of_reused_builder".into(), rows, out));
+        }
         let nontrivial = fields.len() >= 2 || fields.iter().any(|f| matches!(f.data_type, DataType::Struct(_) | DataType::List(_) | DataType::Map(..)));
         let reference = match &results[0].2 { Out::Ok(a) => Some(a.clone()), _ => None };
         for (label, rows, out) in &results {
